@@ -4,7 +4,7 @@
 //! models through the public `rten::Model` API.  Inputs and outputs are
 //! recorded as integers; the trace spec computes the expected results.
 
-use rten::{Model, Value as RValue, ValueOrView};
+use rten::{Model, ModelOptions, Value as RValue, ValueOrView};
 use rten_tensor::Tensor;
 use rten_tensor::prelude::*;
 use vcommon::onnx::{self, Attr, Graph, Node, TensorData, ValueInfo};
@@ -93,8 +93,25 @@ fn run_model(
     outputs: &[&str],
     unit_log2: &[i32],
 ) -> Outs {
+    run_model_opts(bytes, inputs, outputs, unit_log2, false)
+}
+
+fn run_model_opts(
+    bytes: Vec<u8>,
+    inputs: Vec<(&str, RValue)>,
+    outputs: &[&str],
+    unit_log2: &[i32],
+    prepack: bool,
+) -> Outs {
     let r = guarded(|| -> Result<Vec<RValue>, String> {
-        let model = Model::load(bytes).map_err(|e| format!("load: {e}"))?;
+        let model = if prepack {
+            ModelOptions::with_all_ops()
+                .prepack_weights(true)
+                .load(bytes)
+                .map_err(|e| format!("load: {e}"))?
+        } else {
+            Model::load(bytes).map_err(|e| format!("load: {e}"))?
+        };
         let mut ins: Vec<(rten::NodeId, ValueOrView)> = Vec::new();
         for (name, v) in inputs {
             let id = model.node_id(name).map_err(|e| format!("input {name}: {e}"))?;
@@ -167,6 +184,8 @@ fn matmul_integer_case(tr: &mut Trace, id: &str, rng: &mut Rng) {
     let a = gen_vals(rng, a_shape.iter().product(), a_ty, style);
     let b = gen_vals(rng, b_shape.iter().product(), b_ty, style);
     let b_const = b_shape.len() == 2 && rng.chance(1, 2);
+    // constant weights are prepacked at load time only on request (ModelOptions::prepack_weights)
+    let prepack = b_const && rng.chance(1, 2);
     let (alo, ahi) = range_of(a_ty);
     let (blo, bhi) = range_of(b_ty);
     // zero points: absent, scalar, or vector (per row of A / per column of B)
@@ -232,7 +251,7 @@ fn matmul_integer_case(tr: &mut Trace, id: &str, rng: &mut Rng) {
         "ev": "case", "op": "MatMulInteger", "id": id, "form": form, "nb": nb, "mr": 8, "nr": 32,
         "m": m, "n": n, "k": k, "a_ty": a_ty, "b_ty": b_ty,
         "a_shape": us(&a_shape), "b_shape": us(&b_shape), "a": ints(&a), "b": ints(&b),
-        "b_const": b_const, "za_kind": za_kind, "zb_kind": zb_kind, "za": ints(&za), "zb": ints(&zb),
+        "b_const": b_const, "prepack": prepack, "za_kind": za_kind, "zb_kind": zb_kind, "za": ints(&za), "zb": ints(&zb),
         "to_float": to_float, "scale_kind": scale_kind, "scale_log2": ints(&scale_log2), "unit_log2": unit_log2,
     }));
     tr.flush();
@@ -240,7 +259,7 @@ fn matmul_integer_case(tr: &mut Trace, id: &str, rng: &mut Rng) {
     if !b_const {
         inputs.push(("B", byte_value(b_ty, &b_shape, &b)));
     }
-    let o = run_model(g.to_model(), inputs, &["Y"], &[unit_log2]);
+    let o = run_model_opts(g.to_model(), inputs, &["Y"], &[unit_log2], prepack);
     emit_ret(tr, id, &o);
 }
 
@@ -414,4 +433,63 @@ pub fn main_qops() {
         f(&mut tr, &id, &mut rng);
     }
     tr.flush();
+}
+
+/// Minimal operator-level reproductions of the C17 findings (prints what the
+/// code returns; no judgement).
+pub fn main_repro() {
+    // (3) ConvInteger: u8 image [1,2,1,1] = [5, 5], i8 weights [1,2,1,1] = [2, 2], left padding 1,
+    // no zero points.  ONNX: padding contributes 0 -> [0, 20].
+    let mut g = Graph::default();
+    g.inputs.push(ValueInfo::fixed("X", onnx::UINT8, &[1, 2, 1, 1]));
+    g.initializers.push(byte_tensor("W", "i8", &[1, 2, 1, 1], &[2, 2]));
+    g.nodes.push(
+        Node::new("ConvInteger", &["X", "W"], &["Y"])
+            .attr("kernel_shape", Attr::Ints(vec![1, 1]))
+            .attr("pads", Attr::Ints(vec![0, 1, 0, 0])),
+    );
+    g.outputs.push(ValueInfo::new("Y", onnx::INT32, None));
+    let o = run_model(g.to_model(), vec![("X", byte_value("u8", &[1, 2, 1, 1], &[5, 5]))], &["Y"], &[0]);
+    println!("(3) ConvInteger x=[5,5] u8 [1,2,1,1], w=[2,2] i8 [1,2,1,1], pads=[0,1,0,0]: {} {:?} (want [0, 20])",
+             o.outcome, o.outs.first().map(|x| x.1.clone()));
+    // (4) ConvInteger batch 2 (kernel prepacked), 2 input channels, 2x2 kernel, i8 weights all 1,
+    // u8 image all 1, no padding, no zero points -> every output 8.
+    let mut g = Graph::default();
+    g.inputs.push(ValueInfo::fixed("X", onnx::UINT8, &[2, 2, 2, 2]));
+    g.initializers.push(byte_tensor("W", "i8", &[1, 2, 2, 2], &[1; 8]));
+    g.nodes.push(Node::new("ConvInteger", &["X", "W"], &["Y"]).attr("kernel_shape", Attr::Ints(vec![2, 2])));
+    g.outputs.push(ValueInfo::new("Y", onnx::INT32, None));
+    let o = run_model(g.to_model(), vec![("X", byte_value("u8", &[2, 2, 2, 2], &[1; 16]))], &["Y"], &[0]);
+    println!("(4) ConvInteger x=ones[2,2,2,2] u8, w=ones[1,2,2,2] i8: {} {:?} (want [8, 8])",
+             o.outcome, o.outs.first().map(|x| x.1.clone()));
+    // (5) MatMulInteger with constant i8 B, b_zero_point 3, weights prepacked at load:
+    // A = [[1],[1]], B = [[5]] -> [[2],[2]]
+    for prepack in [false, true] {
+        let mut g = Graph::default();
+        g.inputs.push(ValueInfo::fixed("A", onnx::UINT8, &[2, 1]));
+        g.initializers.push(byte_tensor("B", "i8", &[1, 1], &[5]));
+        g.initializers.push(byte_tensor("za", "u8", &[], &[0]));
+        g.initializers.push(byte_tensor("zb", "i8", &[], &[3]));
+        g.nodes.push(Node::new("MatMulInteger", &["A", "B", "za", "zb"], &["Y"]));
+        g.outputs.push(ValueInfo::new("Y", onnx::INT32, None));
+        let o = run_model_opts(g.to_model(), vec![("A", byte_value("u8", &[2, 1], &[1, 1]))], &["Y"], &[0], prepack);
+        println!("(5) MatMulInteger A=[[1],[1]] u8, const B=[[5]] i8, b_zero_point=3, prepack_weights={prepack}: {} {:?} (want [2, 2])",
+                 o.outcome, o.outs.first().map(|x| x.1.clone()));
+    }
+    // (6) MatMulInteger A [2,1] u8 with a_zero_point 3 against a batch of two B matrices
+    // (A is prepacked internally): A = [[4],[4]], B = [[[1]],[[1]]] -> all 1.
+    let mut g = Graph::default();
+    g.inputs.push(ValueInfo::fixed("A", onnx::UINT8, &[2, 1]));
+    g.inputs.push(ValueInfo::fixed("B", onnx::INT8, &[2, 1, 1]));
+    g.initializers.push(byte_tensor("za", "u8", &[], &[3]));
+    g.nodes.push(Node::new("MatMulInteger", &["A", "B", "za"], &["Y"]));
+    g.outputs.push(ValueInfo::new("Y", onnx::INT32, None));
+    let o = run_model(
+        g.to_model(),
+        vec![("A", byte_value("u8", &[2, 1], &[4, 4])), ("B", byte_value("i8", &[2, 1, 1], &[1, 1]))],
+        &["Y"],
+        &[0],
+    );
+    println!("(6) MatMulInteger A=[[4],[4]] u8 a_zero_point=3, B=ones[2,1,1] i8: {} {:?} (want [1, 1, 1, 1])",
+             o.outcome, o.outs.first().map(|x| x.1.clone()));
 }
